@@ -22,7 +22,12 @@ CFG = {
             "read complete?, client gone, saw EOF, close_returned(result), waiter released(result), "
             "connect-after-close result), judged in Coq: the property clauses evaluated on the log (spec) and "
             "acceptance by the shutdown model with the unobservable server-internal steps placed. Non-trivial: "
-            "at least one connection or waiter; distinct by scenario script. Who drives close() "
+            "at least one connection or waiter; distinct by scenario script. Shutdown right after start() (group "
+            "immediate, shutdown-at:*): close() - or drop + wait_for_shutdown() - called with nothing awaited "
+            "since start() and no request served, on a current-thread runtime (the server task has certainly not "
+            "been polled yet) and on the multi-thread one, 0-2 waiters, h1 and TLS servers, both modes (20 "
+            "scenarios); close() not returning within 15 s or a waiter not released leaves no close_returned / "
+            "waiter event: violation. Who drives close() "
             "(close-driven-by:*): a task on the server's runtime, or a plain std thread outside any Tokio runtime "
             "with futures::executor::block_on, or by polling by hand with a no-op waker (a panic there leaves no "
             "close_returned: violation). Waiters (fused-waiters:n): besides the plain .await waiters, n waiters are "
